@@ -23,7 +23,7 @@ CHECKS = {
  "C07": ("model_checking", "6 C07 / 9", "explicit-state BFS (depth 2 quick / 3 thorough) over public network/mesh calls x environment answers on deep-copied simulated worlds; post-condition read from the simulated hardware",
          "From 10 initial node configurations every sequence of API calls / injected frames x (next hop acks or not, NETWORK_ACK / lookup reply injected or not) up to the depth bound is executed on the real node object; after every call the radio must be powered, in RX, CE high, all six pipes on the node's reference addresses, EN_AA=0x3E, DYNPD=0x3F."),
  "C08": ("model_checking", "6 C08 / 9", "explicit-state BFS with canonical-state dedup over open/close pipe (addresses of full width, inside the TX address, and shorter than the width), open_tx_pipe, auto-ack, power and listen calls and a bystander object of the class, per address width; register oracle plus behavioural probes (ghost sender / ghost listener) on deep copies; CE/SPI log",
-         "All call sequences to depth 6 (thorough: until the state space closes) are executed on the real driver; RX clause at every listen=True, TX clause after every open_tx_pipe in TX mode, CE clause from the pin log."),
+         "All call sequences to depth 6 / 5 (thorough 8 / 7) are executed on the real driver; RX clause at every listen=True, TX clause after every open_tx_pipe in TX mode, CE clause from the pin log."),
  "C10": ("model_checking", "6 C10 / 9", "explicit-state BFS with duplicate-state elimination over traffic events (ghost PTX/PRX: deliveries to pipes 0/1/5, ACKs, ACK payloads, failures) interleaved with every accessor call, depth 5 (thorough 7), in dynamic / static / mixed payload modes from empty, full and post-traffic FIFO states",
          "After every operation the radio must have changed exactly as documented (read-only accessors change nothing), returned values must equal the simulated FIFO / STATUS / OBSERVE_TX truth, the cached status must equal the last shifted-out STATUS, and the IRQ line must be asserted iff an enabled event is latched."),
  "C11": ("model_checking", "6 C11 / 9", "exhaustive enumeration of the header field domains (all 12-bit addresses, all ids, all type x reserved pairs) against an explicit little-endian reference codec, and of every message length 0..144 written by a real node to an acknowledging ghost, compared frame by frame with a reference fragment encoder / TMRh20-style reassembler",
